@@ -2,7 +2,7 @@
 #![allow(dead_code, unused_imports)]
 use super::*;
 use crate::vk;
-use crate::{vk_cover, vk_proof_models};
+use crate::{vk_cover, vk_proof_models, vk_proof_models_a};
 
 static mut RECORDED: usize = 0;
 
@@ -70,10 +70,15 @@ pub(crate) fn insert_price_recorder_lenient<'ctx>(
 }
 
 use crate::report::book_keeping::verif_kani::{commodity, dec16};
+use crate::report::intern::FromInterned;
 use rust_decimal::Decimal as D;
 
+/// 2024-03-(1+off), off < 8. A table of concrete dates selected by the (possibly symbolic) offset:
+/// chrono's month/day -> ordinal tables never see a symbolic index.
 fn day(off: u8) -> NaiveDate {
-    NaiveDate::from_ymd_opt(2024, 3, 1 + off as u32).unwrap()
+    let d = |n: u32| NaiveDate::from_ymd_opt(2024, 3, n).unwrap();
+    let tbl = [d(1), d(2), d(3), d(4), d(5), d(6), d(7), d(8)];
+    tbl[(off & 7) as usize]
 }
 
 fn dec_small_signed() -> D {
@@ -81,6 +86,13 @@ fn dec_small_signed() -> D {
     let neg = vk::bool();
     vk::assume(lo < 64);
     D::from_parts(lo as u32, 0, 0, neg, 0)
+}
+
+/// non-zero 6-bit value at scale 0 (products of two stay below 2^12)
+fn dec_small6() -> D {
+    let lo = vk::u8();
+    vk::assume(lo > 0 && lo < 64);
+    D::from_parts(lo as u32, 0, 0, false, 0)
 }
 
 fn dec_small(scale: u32) -> D {
@@ -93,7 +105,9 @@ fn dec_small(scale: u32) -> D {
 /// two dated records sorted by date, entered below the sort), queried at a symbolic day:
 /// the rate used is the most recent one dated on or before the query day; none if all are later;
 /// Y in Y is the identity.
-vk_proof_models! { unwind 4; fn c09_asof_direct() {
+vk_proof_models! {
+    #[cfg_attr(kani, kani::stub(core::slice::sort::unstable::sort, crate::verif_env::unstable_sort_model))]
+    unwind 6; fn c09_asof_direct() {
     let d1 = vk::below(8);
     let d2 = vk::below(8);
     let q = vk::below(8);
@@ -137,10 +151,9 @@ vk_proof_models! { unwind 4; fn c09_asof_direct() {
 /// C09-H0 / C06-H4: insert_price is total for EVERY event (zero sides included: `0 X @@ 5 Y`), stores the
 /// price in both directions, never a non-positive rate for positive amounts, reciprocal when exact.
 vk_proof_models! { unwind 6; fn c09_insert_price() {
-    let vx = dec16(0);
-    let vy = dec16(0);
+    let vx = D::from_parts(vk::u8() as u32, 0, 0, false, 0);
+    let vy = D::from_parts(vk::u8() as u32, 0, 0, false, 0);
     let from_db = vk::bool();
-    vk::assume(vx.is_sign_positive() && vy.is_sign_positive()); // book-keeping and the price DB hand over magnitudes
     vk::note(&|| format!("price event {} X = {} Y (price db: {})", vx, vy, from_db));
     let (x, y) = (commodity(0), commodity(1));
     let mut b = PriceRepositoryBuilder::default();
@@ -176,33 +189,133 @@ vk_proof_models! { unwind 6; fn c09_insert_price() {
 } }
 
 /// C09-H3: a price-database price replaces ledger-derived prices of the same pair (ledger events are
-/// inserted first, the price DB afterwards, as report::process does).
-vk_proof_models! { unwind 6; fn c09_source_precedence() {
+/// inserted first, the price DB afterwards, as report::process does), in both directions; inserted the
+/// other way round, a ledger-derived price never downgrades or joins a price-database pair.
+/// The sequence is concrete (a symbolic number of `Vec::push`es makes the allocation size symbolic);
+/// the quick harness does not read the stored rates back (reading an element of a `Vec` whose buffer
+/// was allocated after a path merge needs CBMC's array theory: 16 GB) - the `_value` variant does, under
+/// the fixed-block allocator model.
+fn source_precedence<const DB_FIRST: bool, const READ_BACK: bool>() {
     let l1 = dec_small(0);
-    let l2 = dec_small(0);
     let p = dec_small(0);
-    let n_ledger = vk::below(3);
-    vk::note(&|| format!("{} ledger prices then one price-db price", n_ledger));
+    vk::note(&|| format!("ledger price {} and price-db price {} for the same pair (price db first: {})", l1, p, DB_FIRST));
     let (x, y) = (commodity(0), commodity(1));
     let one = SingleAmount::from_value(D::ONE, x);
     let mut b = PriceRepositoryBuilder::default();
-    if n_ledger >= 1 {
+    if DB_FIRST {
+        b.insert_price(PriceSource::PriceDB, PriceEvent { date: day(1), price_x: one, price_y: SingleAmount::from_value(p, y) });
         b.insert_price(PriceSource::Ledger, PriceEvent { date: day(0), price_x: one, price_y: SingleAmount::from_value(l1, y) });
+    } else {
+        b.insert_price(PriceSource::Ledger, PriceEvent { date: day(0), price_x: one, price_y: SingleAmount::from_value(l1, y) });
+        b.insert_price(PriceSource::PriceDB, PriceEvent { date: day(1), price_x: one, price_y: SingleAmount::from_value(p, y) });
     }
-    if n_ledger >= 2 {
-        b.insert_price(PriceSource::Ledger, PriceEvent { date: day(2), price_x: one, price_y: SingleAmount::from_value(l2, y) });
-    }
-    b.insert_price(PriceSource::PriceDB, PriceEvent { date: day(1), price_x: one, price_y: SingleAmount::from_value(p, y) });
     let e = b.records.get(&y).and_then(|m| m.get(&x)).expect("pair stored");
-    assert!(e.0 == PriceSource::PriceDB, "C09: pair not marked as price-database sourced");
-    assert!(e.1.len() == 1, "C09: ledger-derived prices survive next to a price-database price for the same pair");
-    assert!(e.1[0].0 == day(1) && e.1[0].1 == p, "C09: the price-database price is not what is stored");
     let r = b.records.get(&x).and_then(|m| m.get(&y)).expect("reverse pair stored");
-    assert!(r.0 == PriceSource::PriceDB && r.1.len() == 1, "C09: ledger-derived prices survive in the reciprocal direction");
-    vk_cover!(n_ledger == 2, "two ledger prices replaced");
+    assert!(e.0 == PriceSource::PriceDB && r.0 == PriceSource::PriceDB, "C09: pair not marked as price-database sourced in both directions");
+    if !DB_FIRST {
+        assert!(e.1.len() == 1, "C09: ledger-derived prices survive next to a price-database price for the same pair");
+        assert!(r.1.len() == 1, "C09: ledger-derived prices survive in the reciprocal direction");
+        if READ_BACK {
+            assert!(e.1[0].0 == day(1), "C09: the surviving price is not the price-database one (date)");
+        }
+    }
     core::mem::forget(b);
+}
+vk_proof_models! { unwind 6; fn c09_source_precedence() { source_precedence::<false, false>(); } }
+vk_proof_models! { unwind 6; fn c09_source_keep_db() { source_precedence::<true, false>(); } }
+vk_proof_models_a! { unwind 6; fn c09_source_precedence_value() { source_precedence::<false, true>(); } }
+
+/// C09-H4: the order conversion chains are ranked by: fewest ledger-derived steps, then fewest steps,
+/// then least stale - `Distance`'s derived ordering and `Distance::extend`, for every pair of distances.
+vk_proof_models! { unwind 4; fn c09_distance_order() {
+    let (a1, a2, a3) = (vk::u8(), vk::u8(), vk::u8());
+    let (b1, b2, b3) = (vk::u8(), vk::u8(), vk::u8());
+    let ledger = vk::bool();
+    let st = vk::u8();
+    vk::note(&|| format!("distances {:?} vs {:?}; extend by ledger={} staleness {}d", (a1, a2, a3), (b1, b2, b3), ledger, st));
+    let mk = |n: u8, h: u8, s: u8| Distance { num_ledger_conversions: n as usize, num_all_conversions: h as usize, staleness: TimeDelta::days(s as i64) };
+    let (da, db) = (mk(a1, a2, a3), mk(b1, b2, b3));
+    let want = (a1, a2, a3).cmp(&(b1, b2, b3));
+    assert!(da.cmp(&db) == want, "C09: chains are not ranked by (ledger-derived steps, steps, staleness)");
+    assert!(da.partial_cmp(&db) == Some(want), "C09: partial order of distances disagrees with the total order");
+    assert!((da == db) == (want == core::cmp::Ordering::Equal), "C09: equality of distances");
+    let (wa, wb) = (WithDistance(da.clone(), 1u8), WithDistance(db.clone(), 2u8));
+    assert!(wa.cmp(&wb) == want && wa.partial_cmp(&wb) == Some(want), "C09: queue entries are not ordered by their distance");
+    assert!(wa.partial_cmp(&db) == Some(want) && (wa == db) == (want == core::cmp::Ordering::Equal), "C09: entry-vs-distance comparison");
+    let e = da.extend(if ledger { PriceSource::Ledger } else { PriceSource::PriceDB }, TimeDelta::days(st as i64));
+    assert!(e.num_ledger_conversions == a1 as usize + ledger as usize, "C09: only ledger-derived steps count as ledger-derived");
+    assert!(e.num_all_conversions == a2 as usize + 1, "C09: every step counts as a step");
+    assert!(e.staleness == TimeDelta::days(core::cmp::max(a3, st) as i64), "C09: staleness of a chain is that of its stalest price");
+    vk_cover!(a1 == b1 && a2 == b2 && a3 < b3, "decided by staleness");
+    vk_cover!(a1 < b1 && a2 > b2, "ledger-derived steps outrank the step count");
 } }
 
+/// C09-H5: chain selection over three commodities. Records as `build_naive` leaves them (one dated rate
+/// per pair, entered below the sort): D = price of X in T, A = price of M in T, B = price of X in M, each
+/// with symbolic presence, source, date and rate, queried at a symbolic day. Expected from the statement:
+/// only prices dated on or before the query day; direct vs. two-step chain ranked by (ledger-derived steps,
+/// steps); the rate of a chain is the product of its steps; no usable chain => no rate; T in T = 1.
+vk_proof_models! {
+    #[cfg_attr(kani, kani::stub(core::slice::sort::unstable::sort, crate::verif_env::unstable_sort_model))]
+    unwind 6; fn c09_chain_3() {
+    let q = vk::below(4);
+    // All three pairs are present (concrete map shapes keep the search's path count small); a pair whose
+    // only price is dated after the query day behaves as an absent pair, so every usable/unusable pattern
+    // is still inside the space.
+    let (has_d, has_a, has_b) = (true, true, true);
+    let (led_d, day_d, r_d) = (vk::bool(), vk::below(4), dec_small6());
+    let (led_a, day_a, r_a) = (vk::bool(), vk::below(4), dec_small6());
+    let (led_b, day_b, r_b) = (vk::bool(), vk::below(4), dec_small6());
+    vk::note(&|| format!("query day{}; X in T: {:?}; M in T: {:?}; X in M: {:?}", q,
+        if has_d { Some((led_d, day_d, r_d)) } else { None }, if has_a { Some((led_a, day_a, r_a)) } else { None },
+        if has_b { Some((led_b, day_b, r_b)) } else { None }));
+    let (x, m, t) = (commodity(0), commodity(1), commodity(2));
+    let src = |l: bool| if l { PriceSource::Ledger } else { PriceSource::PriceDB };
+    let one = |d: u8, r: D| { let mut v = Vec::with_capacity(1); v.push((day(d), r)); v };
+    let mut records: HashMap<Commodity<'static>, HashMap<Commodity<'static>, Entry>> = HashMap::new();
+    let mut of_t: HashMap<Commodity<'static>, Entry> = HashMap::new();
+    if has_d { of_t.insert(x, Entry(src(led_d), one(day_d, r_d))); }
+    if has_a { of_t.insert(m, Entry(src(led_a), one(day_a, r_a))); }
+    records.insert(t, of_t);
+    let mut of_m: HashMap<Commodity<'static>, Entry> = HashMap::new();
+    if has_b { of_m.insert(x, Entry(src(led_b), one(day_b, r_b))); }
+    records.insert(m, of_m);
+    let repo = NaivePriceRepository { records };
+    let table = repo.compute_price_table(t, day(q));
+    match table.get(&t) {
+        Some(WithDistance(_, r)) => assert!(*r == D::ONE, "C09: a commodity in itself is not the identity"),
+        None => {} // convert_single answers T-in-T before consulting the table
+    }
+    let (ud, ua, ub) = (has_d && day_d <= q, has_a && day_a <= q, has_b && day_b <= q);
+    // rate of M
+    match (table.get(&m).map(|w| w.1), ua) {
+        (None, false) => {}
+        (Some(g), true) => assert!(g == r_a, "C09: rate of the intermediate commodity"),
+        (Some(_), false) => panic!("C09: a price dated after the query date (or absent) was used"),
+        (None, true) => panic!("C09: an available price was not used"),
+    }
+    // rate of X
+    let direct = (led_d as u8, 1u8);
+    let chain = (led_a as u8 + led_b as u8, 2u8);
+    let want = match (ud, ua && ub) {
+        (false, false) => None,
+        (true, false) => Some(r_d),
+        (false, true) => Some(r_a * r_b),
+        (true, true) => Some(if direct < chain { r_d } else { r_a * r_b }), // never equal: the step counts differ
+    };
+    match (table.get(&x).map(|w| w.1), want) {
+        (None, None) => {}
+        (Some(g), Some(w)) => assert!(g == w, "C09: the chain with the fewest ledger-derived steps, then the fewest steps, was not the one used"),
+        (Some(_), None) => panic!("C09: a conversion was made up although no chain of usable prices exists"),
+        (None, Some(_)) => panic!("C09: an existing chain of usable prices was not found"),
+    }
+    vk_cover!(ud && ua && ub && led_d && !led_a && !led_b, "two price-db steps beat one ledger-derived step");
+    vk_cover!(ud && ua && ub && !led_d, "direct price-db price beats a chain");
+    vk_cover!(!ud && ua && ub, "only the chain is usable");
+    vk_cover!(has_d && !ud && !(ua && ub), "every price is in the future");
+    core::mem::forget(table);
+    core::mem::forget(repo);
+} }
 
 /// C10-H1: convert_amount converts every commodity of the amount or fails; amounts already in the target
 /// are left untouched; the result is the sum of value x rate (linear). The price table for (target, date)
@@ -255,6 +368,8 @@ vk_proof_models! { unwind 6; fn c10_convert_amount() {
     core::mem::forget(amount);
 } }
 
+
+
 #[cfg(all(test, not(kani)))]
 #[test]
 fn verif_replay_entry() {
@@ -262,6 +377,10 @@ fn verif_replay_entry() {
         ("c09_asof_direct", c09_asof_direct as fn()),
         ("c09_insert_price", c09_insert_price as fn()),
         ("c09_source_precedence", c09_source_precedence as fn()),
+        ("c09_source_precedence_value", c09_source_precedence_value as fn()),
+        ("c09_source_keep_db", c09_source_keep_db as fn()),
+        ("c09_distance_order", c09_distance_order as fn()),
+        ("c09_chain_3", c09_chain_3 as fn()),
         ("c10_convert_amount", c10_convert_amount as fn()),
     ]);
 }
